@@ -361,7 +361,9 @@ EncAddr(e, a) == [hrp |-> a.hrp, data |-> a.key, len |-> IF e = "bin" THEN 1 + A
 DecAddr(e, w) == [hrp |-> w.hrp, key |-> w.data]
 AddrRoundTrip(e, a) == DecAddr(e, EncAddr(e, a)) = a
 
-OnionFD    == [key |-> {"rand", "zero", "ones"}]
+\* lead<i>: the text form starts with the i-th character of the base32 alphabet (every letter that also
+\* occurs in "http://", ".onion" or a digit: prefix / suffix stripping must not eat the address itself)
+OnionFD    == [key |-> {"rand", "zero", "ones"} \cup {"lead" \o ToString(i) : i \in 0..31}]
 OnionEncs  == {"ov3", "http", "upper", "hex", "json"}
 EncOnion(e, a) == [data |-> a.key, len |-> CASE e = "ov3" -> 56 [] e = "upper" -> 56 [] e = "http" -> 7 + 56 + 6
                                              [] e = "hex" -> 64 [] OTHER -> 0]
